@@ -8,7 +8,7 @@ program values — only branch conditions built from these atoms are evaluated.
 import itertools
 from .terms import TermBuilder, strip, show, walk
 
-CMP_NAMES = {"lt": lambda o: o == "L", "le": lambda o: o in "LE", "gt": lambda o: o == "G",
+CMP_NAMES = {"sub_with_borrow": lambda o: o == "L", "lt": lambda o: o == "L", "le": lambda o: o in "LE", "gt": lambda o: o == "G",
              "ge": lambda o: o in "GE", "eq": lambda o: o == "E", "ne": lambda o: o != "E"}
 CMP_TRAITS = ("core::cmp::PartialOrd", "core::cmp::PartialEq", "core::cmp::Ord")
 
@@ -18,6 +18,8 @@ class Unknown(Exception):
 
 
 def is_cmp_call(t):
+    if t[0] == "call" and t[1].name == "sub_with_borrow" and len(t[2]) == 2 and "ark_ff" in (t[1].d or ""):
+        return True          # ark-ff BigInteger::sub_with_borrow(a, b) answers whether it borrowed, i.e. a < b (a: the value before the call)
     return t[0] == "call" and t[1].get("trait") in CMP_TRAITS and t[1].name in CMP_NAMES and len(t[2]) == 2
 
 
